@@ -425,8 +425,8 @@ func runFamilies(e *env, fams []idlFamily, randomFrom int) error {
 func init() {
 	commands["idlmut"] = func(e *env) error {
 		if e.tier == "thorough" {
-			bases := idlBaseTexts(2)
-			return runFamilies(e, []idlFamily{famBases(idlBaseTexts(3)), famMutants(bases), famSeqs(4),
+			bases := idlBaseTexts(3)
+			return runFamilies(e, []idlFamily{famBases(bases), famMutants(bases), famSeqs(4),
 				famRandomMutants(20000), famRandomValid(20000), famRandomBytes(5000)}, 3)
 		}
 		bases := idlBaseTexts(1)
